@@ -135,7 +135,7 @@ class C07:
                   "stubbed": ["tqdm monitor thread (disabled)"]}
     PROBES = ["children_started", "aslr_off_child", "heap_shift_child", "repeat_in_process", "colour_item",
               "none_strategy_item", "soak_history", "cancel_fired_clock", "cancel_fired_write", "cancel_fired_step", "cancel_fired_line",
-              "purity_sessions", "lib_call_interleaved", "stdin_item"]
+              "purity_sessions", "lib_call_interleaved", "stdin_item", "edited_tree_as_input"]
 
     # ------------------------------------------------------------------ generation
     def gen_case(self, seed, tier, index):
@@ -193,7 +193,10 @@ class C07:
                 cancel = {"seam": seam, "at": fs.choice([1, 2, 3, 5, 8, 13, 30])}
             purity.append({"wl": sched.gen_workload(w), "mode": fs.choice(["diff", "diff", "get_all_edits", "edits_drive"]),
                            "quiet": fs.random() < 0.4, "clock": fs.choice(["frozen", "0.2s", "3s"]),
-                           "cancel": cancel})
+                           "cancel": cancel,
+                           # 0: two freshly built trees; 1 / 2: the first / second tree handed to the comparison is
+                           # itself the RESULT of an earlier comparison (an edited, annotated tree)
+                           "chain": fs.choice([0, 0, 0, 1, 2])})
         return {"items": items, "lib_docs": lib_docs, "history": hist, "envs": envs, "soak": soak, "purity": purity}
 
     # ------------------------------------------------------------------ children
@@ -355,7 +358,32 @@ class C07:
         wl = ps["wl"]
         hygiene()
         SEAMS.clock.configure("frozen")
-        f0, t0_ = sched.build_pair(wl)
+        chain = [ps.get("chain", 0)]
+
+        def build():
+            """The two trees the comparison is given.  chain 1 / 2: one of them is the annotated result of an earlier,
+            finished comparison of the same documents - 'the trees it was given' are then edited trees, and their
+            annotations are part of what must not change."""
+            a, b = sched.build_pair(wl)
+            if chain[0]:
+                a2, b2 = sched.build_pair(wl)
+                try:
+                    if chain[0] == 1:
+                        a = a2.diff(b2)
+                    else:
+                        b = b2.diff(a2)
+                except core.RunTimeout:
+                    raise
+                except Exception as e:
+                    if "outside-graphtage" in core.graphtage_site(e):
+                        raise
+                    chain[0] = 0           # the earlier comparison itself fails: plain trees
+                    a, b = sched.build_pair(wl)
+                hygiene()
+            return a, b
+        f0, t0_ = build()
+        if chain[0]:
+            counters["probe.edited_tree_as_input"] = counters.get("probe.edited_tree_as_input", 0) + 1
         try:
             ref_text = render(wl["family"], f0.diff(t0_), False, False, True)
         except core.RunTimeout:
@@ -384,7 +412,9 @@ class C07:
             hygiene()
             P0.quiet = bool(ps["quiet"])
             SEAMS.clock.configure(ps["clock"])
-            fd, td = sched.build_pair(wl)
+            fd, td = build()
+            P0.quiet = bool(ps["quiet"])
+            SEAMS.clock.configure(ps["clock"])
             counter = LineCancel(GRAPHTAGE_DIR)
             try:
                 with counter:
@@ -395,7 +425,7 @@ class C07:
                 if "outside-graphtage" in core.graphtage_site(e):
                     raise
             line_cancel = LineCancel(GRAPHTAGE_DIR, at=max(1, int(ps["cancel"]["frac"] * counter.count)))
-        f, t = sched.build_pair(wl)
+        f, t = build()
         fp0 = (sched.fingerprint(f), sched.fingerprint(t))
         cancel = NO_CANCEL
         if ps["cancel"] and line_cancel is None:
@@ -434,7 +464,7 @@ class C07:
             if line_cancel is not None and line_cancel.where:
                 k = "cancelled_in." + line_cancel.where
                 counters[k] = counters.get(k, 0) + 1
-        log.add("purity", ps["mode"], ps["quiet"], ps["cancel"], outcome)
+        log.add("purity", ps["mode"], ps["quiet"], ps["cancel"], chain[0], outcome)
         fp1 = (sched.fingerprint(f), sched.fingerprint(t))
         if fp1 != fp0:
             side = "first" if fp1[0] != fp0[0] else "second"
@@ -469,6 +499,8 @@ class C07:
             ps = case["purity"][0]
             for wl in sched.shrink_workload(ps["wl"]):
                 yield dict(case, purity=[dict(ps, wl=wl)])
+            if ps.get("chain"):
+                yield dict(case, purity=[dict(ps, chain=0)])
             if ps.get("quiet"):
                 yield dict(case, purity=[dict(ps, quiet=False)])
             if ps.get("clock") != "frozen":
